@@ -135,7 +135,7 @@ Proof.
   cbv zeta in H. destruct H as (Hc & Hi).
   set (x := process_input catalogue class_table module_table (exec {| env_files := files |}) (list event) rec_put rec_fin (InSrc src) []) in *.
   assert (Hpcap : forall p (s : list event), map snd s = p_out p -> pcap_of p = pcap_ghdr ++ concat (map snd (rev s))).
-  { intros p s Hs. unfold pcap_of. rewrite map_rev. f_equal. f_equal. f_equal. symmetry. exact Hs. }
+  { intros p s Hs. unfold pcap_of. rewrite frev_rev, map_rev. f_equal. f_equal. f_equal. symmetry. exact Hs. }
   destruct x as [p s|e l p s|l p s|site p s]; cbn [cli_of trace_of ic_state ic_prog] in *; try discriminate;
     inversion Hc as [Hpf]; eexists; eexists; (split; [reflexivity|]).
   - apply Hpcap. exact Hi.
